@@ -27,7 +27,7 @@ import (
 
 func main() {
 	start := time.Now()
-	o := core.ParseFlags(75, 840)
+	o := core.ParseFlags(50, 840)
 	log.SetOutput(io.Discard)
 	res := &core.Result{Property: "C16", Tier: o.Tier,
 		Technique: "explicit-state BFS over create/update/delete/expire/tick/list/get/external-edit sequences on the real token package and the real HTTP token route with a restart-equivalence oracle after every step; preemption-bounded schedule enumeration of concurrent conditional editors with a serializability oracle and vector-clock race monitor; process-crash and I/O-fault enumeration at every file-system step of write histories"}
